@@ -10,10 +10,18 @@ C07  max_advance is a sound promise.
                   or scheduled — delayed by the minimal trigger-path delay, and every step already
                   scheduled for the simulator itself, have a time `> m` (or the window `(t, m]` is
                   empty)
-The run form of the promise (no externally caused step inside `(t, m]` later in any run) is NOT a
-theorem yet; it is decided by the taint monitor on the implementation traces.
+`promise_run`   : the run form.  From the state in which the step request with `max_advance = m`
+                  went out, along every run in which the simulator itself does not cause a step
+                  inside the window (it does not schedule itself at a time `≤ m` and does not
+                  produce an output that triggers itself or one of its triggering ancestors), the
+                  simulator never has a step in flight with a time in `(t, m]`, and never has one
+                  scheduled at a time `≤ m`.  The causes excluded by the hypothesis are exactly the
+                  ones the property allows ("traceable to its own output or self-schedule"); the
+                  finer statement that a step inside the window caused by an own output lies at or
+                  after that output's time is decided by the taint monitor on the traces.
 -/
-import MosaikProofs.Sched.Errors
+import MosaikProofs.Sched.Shield
+import MosaikProofs.Properties.C01
 namespace Mosaik.C07
 open Mosaik
 
@@ -140,5 +148,82 @@ theorem promise_is_what_is_sent {cfg : Cfg} (s : State) (p : Sid) (c : TT) (rest
       simp only [SimSt.ctrl, Prod.mk.injEq] at hfc
       simp [hfc.2.2.1]
     · simp [State.upd_other _ _ hq, hq]
+
+/-- the state in which the step request goes out is shielded up to the promise -/
+theorem shield_at_promise {cfg : Cfg} (hw : WFCfg cfg) {s : State} (hc : Core cfg s) {p : Sid} (hp : p < cfg.n) {c : TT}
+    (hcur : (s.sims p).cur = some c) (hwin : maxAdvance cfg s p c ≠ TT.time c) :
+    Shield cfg s p c (maxAdvance cfg s p c) := by
+  rcases promise_state cfg s p c with h | ⟨hanc, hown, _⟩
+  · exact absurd h hwin
+  · constructor
+    · intro ad had hne x hx
+      exact hanc ad had hne x (by unfold front; rw [hx])
+    · intro ad had hne x hx
+      have han : ad.1 < cfg.n := hw.ancRange p hp ad had
+      have hok := hc ad.1 han
+      cases hcx : (s.sims ad.1).cur with
+      | some cx =>
+        have h1 := hanc ad had hne cx (by unfold front; rw [hcx])
+        have hlt : cx < x := hok.begun_lt_next cx (hok.cur_begun cx hcx) x hx
+        have := TT.time_mono (TI.act_mono_left ad.2 (TT.le_of_lt hlt))
+        omega
+      | none =>
+        cases hh : (s.sims ad.1).next.head? with
+        | none => rw [List.head?_eq_none_iff] at hh; rw [hh] at hx; cases hx
+        | some hd =>
+          have h1 := hanc ad had hne hd (by unfold front; rw [hcx]; exact hh)
+          have := TT.time_mono (TI.act_mono_left ad.2 (head_le_of_sorted hok.sorted hh hx))
+          omega
+    · intro x hx
+      cases hh : (s.sims p).next.head? with
+      | none => rw [List.head?_eq_none_iff] at hh; rw [hh] at hx; cases hx
+      | some hd =>
+        have h1 := hown hd hh
+        have := TT.time_mono (head_le_of_sorted (hc p hp).sorted hh hx)
+        omega
+    · intro x hx
+      rw [hcur] at hx
+      exact Or.inl (Option.some.inj hx).symm
+
+/-- **C07, run form.**  `s` is a reachable state in which `p` has the step `c` in flight (the state
+in which the request `step(t, inputs, max_advance = m)` went out, `m = maxAdvance cfg s p c`); `as`
+is any continuation in which `p` itself does not cause a step inside the window.  Then in the state
+reached `p` has no step in flight with a time in `(t, m]` and no step scheduled at a time `≤ m`. -/
+theorem promise_run {cfg : Cfg} (hw : WFCfg cfg) {s : State} (hr : Reach cfg s) (hf : s.failed = none) {p : Sid} (hp : p < cfg.n)
+    {c : TT} (hcur : (s.sims p).cur = some c) (as : List Action)
+    (hq : ∀ a ∈ as, Quiet cfg p (maxAdvance cfg s p c) a) {s' : State} (he : exec cfg s as = some s') :
+    (∀ x, (s'.sims p).cur = some x → ¬ (TT.time c < TT.time x ∧ TT.time x ≤ maxAdvance cfg s p c)) ∧
+    (∀ x ∈ (s'.sims p).next, TT.time c < maxAdvance cfg s p c → maxAdvance cfg s p c < TT.time x) := by
+  by_cases hwin : maxAdvance cfg s p c = TT.time c
+  · constructor
+    · intro x _ h; omega
+    · intro x _ h; omega
+  · have hsh := shield_exec hw hp as (shield_at_promise hw ((reach_good hw hr) hf).1 hp hcur hwin) hq he
+    constructor
+    · intro x hx h
+      rcases hsh.pcur x hx with h1 | h1
+      · subst h1; omega
+      · omega
+    · intro x hx _
+      exact hsh.own x hx
+
+/-! non-vacuity of `promise_run`: in the two-simulator configuration A → B (trigger connection), A steps at 0
+and announces its next step for 3; B's step at 0 goes out with `max_advance = 2`; in the quiet continuation
+(B answers, A steps at 3 and triggers B) B's next step is the one at 3, after the promise. -/
+def exCfg : Cfg := { C01.exCfg with until_ := 5 }
+def exPre : List Action :=
+  [.start 0, .start 1, .deps 0, .stepReply 0 (.int 3), .dataReply 0 { data := [((0, 0), some 7)] }, .wake 1, .deps 1]
+def exPost : List Action :=
+  [.stepReply 1 .none, .deps 0, .stepReply 0 (.int 4), .dataReply 0 { data := [((0, 0), some 8)] }, .wake 1, .deps 1]
+
+example : exCfg.wfB = true := by decide
+example : ((exec exCfg (initState exCfg) exPre).map fun s => (s.failed.isNone, (s.sims 1).cur, maxAdvance exCfg s 1 [0]))
+    = some (true, some [0], 2) := by decide
+example : ∀ a ∈ exPost, Quiet exCfg 1 2 a := by
+  intro a ha
+  simp only [exPost, List.mem_cons, List.not_mem_nil, or_false] at ha
+  rcases ha with rfl | rfl | rfl | rfl | rfl | rfl <;> simp [Quiet]
+example : ((exec exCfg (initState exCfg) (exPre ++ exPost)).map fun s => (s.failed.isNone, (s.sims 1).cur, (s.sims 1).begun))
+    = some (true, some [3], [[3], [0]]) := by decide
 
 end Mosaik.C07
